@@ -420,29 +420,69 @@ func idiomAwaitedOpen(j *CtxJudge, r *Resolver, s BSite, cone *Cone) (bool, stri
 	return true, "idiom (e): open runs in a spawned goroutine that signals on a captured channel; the worker awaits it at " + r.P.InstrPos(okSel) + " with " + why
 }
 
-// idiom (f)
-func idiomClosedOnCancel(j *CtxJudge, r *Resolver, s BSite, p *Prog) (bool, string) {
-	fn := s.Fn
-	call := s.In.(*ssa.Call)
-	rd := call.Call.Args[0]
+
+// closedOnCancelAt: in function fn (resolver r) the reader value rd is
+// bufio.NewReader(file), and a goroutine started in fn before instruction at
+// closes that file when the worker context is cancelled.
+func closedOnCancelAt(j *CtxJudge, r *Resolver, p *Prog, fn *ssa.Function, rd ssa.Value, at ssa.Instruction) (bool, string) {
 	// reader = bufio.NewReader(X) where X is a file variable
 	ro := r.Of(rd)
-	var fileCell *ssa.Alloc
-	var fileVal ssa.Value
+	var fileArg ssa.Value
+	var mk *ssa.Call
 	for _, a := range ro.Alts() {
 		if a.K == "call" && (a.Name == "bufio.NewReader" || a.Name == "bufio.NewReaderSize") {
-			arg := a.V.(*ssa.Call).Call.Args[0]
-			fileCell = cellOf(r, arg)
-			fileVal = strip(arg)
+			mk = a.V.(*ssa.Call)
+			fileArg = mk.Call.Args[0]
 		}
 	}
-	if fileVal == nil {
+	if fileArg == nil {
 		return false, "blocking read on a reader of unknown origin"
 	}
+	// the point that the closing goroutine must precede: the read (or the
+	// call leading to it) when the reader is made in fn, else the creation
+	if mk.Parent() != fn {
+		fn, at = mk.Parent(), mk
+	}
+	return fileClosedOnCancel(j, p, fn, fileArg, at, 0)
+}
+
+// fileClosedOnCancel: a goroutine started in fn before instruction at closes
+// the file (a local variable of fn) when the worker context is cancelled.
+// When the file is a parameter of fn the question is asked at every static
+// call site of fn.
+func fileClosedOnCancel(j *CtxJudge, p *Prog, fn *ssa.Function, fileArg ssa.Value, at ssa.Instruction, depth int) (bool, string) {
+	r := NewResolver(p)
+	if prm, isPrm := strip(fileArg).(*ssa.Parameter); isPrm && prm.Parent() == fn && depth < 3 {
+		idx := -1
+		for i, q := range fn.Params {
+			if q == prm {
+				idx = i
+			}
+		}
+		n := 0
+		for _, caller := range p.AllRepoFuncs() {
+			if !p.InDaemon(caller) {
+				continue
+			}
+			for _, ci := range callsIn(caller) {
+				if staticCallee(ci.Common()) != fn || idx < 0 || idx >= len(ci.Common().Args) {
+					continue
+				}
+				n++
+				if ok, why := fileClosedOnCancel(j, p, caller, ci.Common().Args[idx], ci, depth+1); !ok {
+					return false, why
+				}
+			}
+		}
+		if n == 0 {
+			return false, "blocking read on a file parameter of a function with no static caller"
+		}
+		return true, ""
+	}
+	fileCell := cellOf(r, fileArg)
 	// a goroutine spawned in this function: <-ctx.Done(); file.Close()
 	var closer *ssa.Function
 	var goIn *ssa.Go
-	why := ""
 	allInstrs(fn, func(in ssa.Instruction) {
 		g, ok := in.(*ssa.Go)
 		if !ok {
@@ -460,9 +500,8 @@ func idiomClosedOnCancel(j *CtxJudge, r *Resolver, s BSite, p *Prog) (bool, stri
 			case *ssa.UnOp:
 				if x.Op == token.ARROW {
 					if cx := doneRecvOf(x.X); cx != nil {
-						if ok, w := j.OK(cr, cx); ok {
+						if ok, _ := j.OK(cr, cx); ok {
 							doneRecv = ci
-							why = w
 						}
 					}
 				}
@@ -482,7 +521,7 @@ func idiomClosedOnCancel(j *CtxJudge, r *Resolver, s BSite, p *Prog) (bool, stri
 	if closer == nil {
 		return false, "blocking read on a file that no goroutine closes when the worker context is cancelled: an idle pipe keeps the worker blocked after cancellation"
 	}
-	if !dominatesInstr(goIn, call) {
+	if !dominatesInstr(goIn, at) {
 		return false, "the goroutine that closes the file on cancellation is not started on every path before the read"
 	}
 	// the descriptor must stay in the runtime poller: (*os.File).Fd() puts
@@ -490,6 +529,67 @@ func idiomClosedOnCancel(j *CtxJudge, r *Resolver, s BSite, p *Prog) (bool, stri
 	if fileCell != nil {
 		if at := fdCalledOnCell(p, fileCell); at != "" {
 			return false, "(*os.File).Fd is called on the file being read (" + at + "): Fd() switches the descriptor to blocking mode, so closing it on cancellation no longer wakes the pending read on an idle pipe"
+		}
+	}
+	return true, ""
+}
+
+// idiom (f)
+func idiomClosedOnCancel(j *CtxJudge, r *Resolver, s BSite, p *Prog) (bool, string) {
+	fn := s.Fn
+	call := s.In.(*ssa.Call)
+	rd := call.Call.Args[0]
+	// the reader may be a parameter of a helper holding the read loop: the
+	// file, the closing goroutine and the dominance are then decided at
+	// every static call site of the helper
+	type rdctx struct {
+		fn *ssa.Function
+		r  *Resolver
+		at ssa.Instruction
+	}
+	ctxs := []rdctx{{fn, r, call}}
+	for depth := 0; depth < 3; depth++ {
+		var next []rdctx
+		expanded := false
+		for _, cx := range ctxs {
+			o := cx.r.Of(rd)
+			isParam := false
+			for _, a := range o.Alts() {
+				if a.K == "param" {
+					if prm, ok := a.V.(*ssa.Parameter); ok && prm.Parent() == cx.fn {
+						isParam = true
+					}
+				}
+			}
+			if !isParam {
+				next = append(next, cx)
+				continue
+			}
+			n := 0
+			for _, caller := range p.AllRepoFuncs() {
+				if !p.InDaemon(caller) {
+					continue
+				}
+				for _, ci := range callsIn(caller) {
+					if staticCallee(ci.Common()) == cx.fn {
+						n++
+						next = append(next, rdctx{caller, cx.r.Bind(cx.fn, ci), ci})
+						expanded = true
+					}
+				}
+			}
+			if n == 0 {
+				return false, "blocking read on a reader parameter of a function with no static caller"
+			}
+		}
+		ctxs = next
+		if !expanded {
+			break
+		}
+	}
+	for _, cx := range ctxs {
+		if ok, why := closedOnCancelAt(j, cx.r, p, cx.fn, rd, cx.at); !ok {
+			return false, why
 		}
 	}
 	// the read error must end the loop
@@ -505,32 +605,35 @@ func idiomClosedOnCancel(j *CtxJudge, r *Resolver, s BSite, p *Prog) (bool, stri
 		return false, "the read error is discarded: after the file is closed on cancellation the loop never ends"
 	}
 	ended := false
-	if refs := errEx.Referrers(); refs != nil {
-		for _, u := range *refs {
-			b, ok := u.(*ssa.BinOp)
-			if !ok || b.Op != token.NEQ || !isNilConst(b.Y) {
-				continue
-			}
-			if br := b.Referrers(); br != nil {
-				for _, x := range *br {
-					if iff, ok := x.(*ssa.If); ok {
-						// some path from the error branch returns without reading again
-						first := iff.Block().Succs[0]
-						if len(first.Instrs) > 0 {
-							start := first.Instrs[0]
-							if isReturn(start) || searchAvoiding(fn, start, isReturn, func(in ssa.Instruction) bool { return in == call }) != nil {
-								ended = true
-							}
-						}
-					}
-				}
+	// every test of the read error (also through the variable it is stored
+	// in): some path from a non-nil edge returns without reading again
+	efl := &errFlow{p: p, seen: map[ssa.Value]bool{}}
+	efl.follow(errEx, 0)
+	for _, iff := range efl.Tested {
+		b, ok := iff.Cond.(*ssa.BinOp)
+		if !ok || !(isNilConst(b.Y) || isNilConst(b.X)) || iff.Block().Parent() != fn {
+			continue
+		}
+		var first *ssa.BasicBlock
+		switch b.Op {
+		case token.NEQ:
+			first = iff.Block().Succs[0]
+		case token.EQL:
+			first = iff.Block().Succs[1]
+		default:
+			continue
+		}
+		if len(first.Instrs) > 0 {
+			start := first.Instrs[0]
+			if isReturn(start) || searchAvoiding(fn, start, isReturn, func(in ssa.Instruction) bool { return in == call }) != nil {
+				ended = true
 			}
 		}
 	}
 	if !ended {
 		return false, "no read error ends the read loop: after the file is closed on cancellation the worker keeps looping"
 	}
-	return true, "idiom (f): goroutine " + funcDisplayName(closer) + " waits for Done() of the worker context (" + why + ") and closes the file being read; a read error leaves the loop"
+	return true, "idiom (f): a goroutine started before the read waits for Done() of the worker context and closes the file being read; a read error leaves the loop"
 }
 
 // lockHoldersDoNotBlock re-establishes, for idiom (h), that no critical
